@@ -63,3 +63,62 @@ Theorem C05_fixed_classify : forall o w f,
   length (preimages (fixed_zone o) w) = 1%nat.
 Proof. exact fixed_classify_lemma. Qed.
 Print Assumptions C05_fixed_classify.
+From V Require Import tzfile.TzGenLib gen.TzGen tzfile.TzGenThm tzfile.TzGenericModel tzfile.TzBeforeThm.
+
+(* ---- regenerated model = hand model (coq/gen/TzGen.v is re-translated from /repo on every run) ---- *)
+Theorem C05_gen_find_last_transition : forall d dt b, gen_find_last_transition d dt b = find_last d (fst dt) b.
+Proof. exact gen_find_last_transition_lemma. Qed.
+Print Assumptions C05_gen_find_last_transition.
+
+Theorem C05_gen_get_ttinfo : forall d idx, shape d -> gen_get_ttinfo d idx = Ok (get_ttinfo d idx).
+Proof. exact gen_get_ttinfo_lemma. Qed.
+Print Assumptions C05_gen_get_ttinfo.
+
+Theorem C05_gen_is_ambiguous : forall d dt idx, shape d -> (forall i, idx = Some i -> i < len (d_wall d)) ->
+  gen_is_ambiguous d dt idx = is_ambiguous d (fst dt) idx.
+Proof. exact gen_is_ambiguous_lemma. Qed.
+Print Assumptions C05_gen_is_ambiguous.
+
+Theorem C05_gen_resolve_ambiguous_time : forall d dt, shape d ->
+  gen_resolve_ambiguous_time d dt = resolve_idx d (fst dt) (snd dt).
+Proof. exact gen_resolve_ambiguous_time_lemma. Qed.
+Print Assumptions C05_gen_resolve_ambiguous_time.
+
+Theorem C05_gen_find_ttinfo : forall d dt, shape d -> gen_find_ttinfo d dt = find_ttinfo d (fst dt) (snd dt).
+Proof. exact gen_find_ttinfo_lemma. Qed.
+Print Assumptions C05_gen_find_ttinfo.
+
+Theorem C05_gen_fromutc : forall d dt, shape d -> gen_fromutc d dt = fromutc d (fst dt).
+Proof. exact gen_fromutc_lemma. Qed.
+Print Assumptions C05_gen_fromutc.
+
+Theorem C05_gen_utcoffset : forall d dt, shape d -> gen_utcoffset d dt = utcoffset d (fst dt) (snd dt).
+Proof. exact gen_utcoffset_lemma. Qed.
+Print Assumptions C05_gen_utcoffset.
+
+Theorem C05_gen_datetime_exists : forall d dt, shape d ->
+  gen_datetime_exists (tzfile_obj d) dt = datetime_exists d (fst dt) (snd dt).
+Proof. exact gen_datetime_exists_lemma. Qed.
+Print Assumptions C05_gen_datetime_exists.
+
+Theorem C05_gen_datetime_ambiguous : forall d dt, good d = true ->
+  gen_datetime_ambiguous (tzfile_obj d) dt = datetime_ambiguous d (fst dt).
+Proof. exact gen_datetime_ambiguous_lemma. Qed.
+Print Assumptions C05_gen_datetime_ambiguous.
+
+Theorem C05_gen_resolve_imaginary : forall d dt, shape d ->
+  gen_resolve_imaginary (tzfile_obj d) dt = resolve_imaginary d (fst dt) (snd dt).
+Proof. exact gen_resolve_imaginary_lemma. Qed.
+Print Assumptions C05_gen_resolve_imaginary.
+
+(* hand-modelled fragments (struct decoding and the derivation loops of _read_tzfile, one-line methods, glue)
+   are unchanged since the hand model was validated against them *)
+From V Require Import tzfile.TzPinC05.
+Theorem C05_pinned_fragments_unchanged :
+  pinned_tz_tzfile__read_tzfile = true /\
+  pinned_tz_tzutc_is_ambiguous = true /\
+  pinned_tz_tzoffset_is_ambiguous = true /\
+  pinned__common__tzinfo_is_ambiguous = true /\
+  pinned__common__tzinfo__fold = true.
+Proof. exact pins_C05_lemma. Qed.
+Print Assumptions C05_pinned_fragments_unchanged.
